@@ -47,7 +47,13 @@ func genWop(r *fw.Rng, allowFail bool) wop {
 		o.b = nonNul(r, r.Range(0, 20))
 	case "fixed":
 		o.n = r.Range(0, 24)
+		if r.Chance(1, 6) {
+			o.n = r.Pick(63, 64, 65, 67, 68, 100, 128, 129, 255, 256, 300, 1000)
+		}
 		o.b = nonNul(r, r.Range(0, o.n))
+		if r.Chance(1, 3) {
+			o.b = nonNul(r, r.Range(0, min(o.n, 3))) // mostly padding
+		}
 		if allowFail {
 			o.b = nonNul(r, o.n+r.Range(1, 8)) // does not fit: the only way a write can fail
 		}
